@@ -2195,4 +2195,78 @@ theorem walk_Ledger (e : Env) (s : St) (lh : Int) (dest : Nat) (prune : Bool) (C
       intro i hi
       exact ⟨hl.idEq i (List.mem_append_right _ hi), h.poolNonCoinbase i hi, hre i hi⟩
 
+/-- what the ledger invariant gives at every reachable state: one row per key; conservation; the total is the supply
+created by the confirmed coinbase transactions; every input of an applied transaction — confirmed or pending — is spent;
+two distinct applied transactions never share a token input; and balances + pending fees = supply -/
+theorem Ledger.invariants {e : Env} {s : St} {C : List Nat} (h : Ledger e s C) :
+    UNodup s.U ∧ sumU s.U + poolFees e s.pool = s.total ∧ s.total = coinbasePaid e C ∧
+    (∀ i ∈ C ++ s.pool, ∀ r ∈ (e.tx i).ins, lookup s.U (r.tx, r.off) = none) ∧
+    (∀ i ∈ C ++ s.pool, ∀ j ∈ C ++ s.pool, i ≠ j →
+      ∀ r ∈ (e.tx i).ins, ∀ r' ∈ (e.tx j).ins, (r.tx, r.off) ≠ (r'.tx, r'.off)) ∧
+    (∀ addrs : List String, addrs.Nodup → (∀ p ∈ s.U, p.2.addr ∈ addrs) →
+      (addrs.map (balance s)).sum + poolFees e s.pool = coinbasePaid e C) := by
+  refine ⟨h.nodupU, h.conservation, h.supply, h.led.insSpent, h.led.disjoint, ?_⟩
+  intro addrs hnd hall
+  rw [balance_is_sum s addrs hnd hall, h.conservation, h.supply]
+
+-- non-vacuity of the ledger theorems: a whole history from the empty state.
+--   block 10 = [100 (genesis coinbase 16)]; submissions 1 (16 -> 10 + 4 + fee 2) and 2 (child of 1: 10 -> 9 + fee 1);
+--   block 11 = [9 (award 10), 1] confirms 1; then a walk to the sibling block 12 = [8 (award 10), 3] where 3 spends the
+--   same output as 1: the pool is rolled back, block 11 undone, block 12 applied, 2 is not re-admitted.
+-- The invariant holds after every step with the ghost logs [100], [100, 9, 1], [100, 8, 3].
+example :
+    let e : Env := {
+      txs := [
+        (100, ⟨100, true, [], [⟨"u0", 16, 0⟩], [], []⟩),
+        (1, ⟨1, false, [⟨100, 0, "u0", 16, 0, false⟩], [⟨"u1", 10, 0⟩, ⟨"u0", 4, 0⟩, ⟨"$", 2, 0⟩], [], []⟩),
+        (2, ⟨2, false, [⟨1, 0, "u1", 10, 0, false⟩], [⟨"u2", 9, 0⟩, ⟨"$", 1, 0⟩], [], []⟩),
+        (3, ⟨3, false, [⟨100, 0, "u0", 16, 0, false⟩], [⟨"u3", 16, 0⟩], [], []⟩),
+        (9, ⟨9, true, [], [⟨"miner", 10, 0⟩], [], []⟩),
+        (8, ⟨8, true, [], [⟨"miner2", 10, 0⟩], [], []⟩)],
+      blocks := [
+        (10, ⟨10, some 0, 0, [100], "g"⟩),
+        (11, ⟨11, some 10, 1, [9, 1], "miner"⟩),
+        (12, ⟨12, some 10, 1, [8, 3], "miner2"⟩)] }
+    let s1 : St := { U := [((100, 0), ⟨"u0", 16, 0⟩)], total := 16, pointer := 10 }
+    let s2 : St := { U := [((1, 1), ⟨"u0", 4, 0⟩), ((1, 0), ⟨"u1", 10, 0⟩)], total := 16, pointer := 10, pool := [1] }
+    let s3 : St := { U := [((2, 0), ⟨"u2", 9, 0⟩), ((1, 1), ⟨"u0", 4, 0⟩)], total := 16, pointer := 10, pool := [1, 2] }
+    let s4 : St := { U := [((1, 2), ⟨"miner", 2, 0⟩), ((9, 0), ⟨"miner", 10, 0⟩), ((2, 0), ⟨"u2", 9, 0⟩),
+                           ((1, 1), ⟨"u0", 4, 0⟩)], total := 26, pointer := 11, pool := [2] }
+    let s5 : St := { U := [((3, 0), ⟨"u3", 16, 0⟩), ((8, 0), ⟨"miner2", 10, 0⟩)], total := 26, pointer := 12 }
+    play e {} 0 (e.block 10) = (s1, .ok) ∧ doTx e s1 0 1 = (s2, .ok) ∧ doTx e s2 0 2 = (s3, .ok) ∧
+    play e s3 0 (e.block 11) = (s4, .ok) ∧ walk e s4 0 12 false = (s5, true) ∧
+    Ledger e s1 [100] ∧ Ledger e s3 [100] ∧ Ledger e s4 [100, 9, 1] ∧ Ledger e s5 [100, 8, 3] ∧
+    sumU s4.U + poolFees e s4.pool = 26 ∧ sumU s5.U = 26 := by
+  intro e s1 s2 s3 s4 s5
+  have e1 : play e {} 0 (e.block 10) = (s1, .ok) := by rfl
+  have e2 : doTx e s1 0 1 = (s2, .ok) := by rfl
+  have e3 : doTx e s2 0 2 = (s3, .ok) := by rfl
+  have e4 : play e s3 0 (e.block 11) = (s4, .ok) := by rfl
+  have e5 : walk e s4 0 12 false = (s5, true) := by rfl
+  have h1 : Ledger e s1 [100] := by
+    have := play_Ledger e {} 0 (e.block 10) [] (Ledger_genesis e) (by decide) (by decide) (by decide) (by decide)
+      (by decide) (by decide) (by decide)
+    rw [e1] at this
+    exact this
+  have h2 : Ledger e s2 [100] := by
+    have := doTx_Ledger e s1 0 1 [100] h1 (fun _ => by decide)
+    rw [e2] at this
+    exact this
+  have h3 : Ledger e s3 [100] := by
+    have := doTx_Ledger e s2 0 2 [100] h2 (fun _ => by decide)
+    rw [e3] at this
+    exact this
+  have h4 : Ledger e s4 [100, 9, 1] := by
+    have := play_Ledger e s3 0 (e.block 11) [100] h3 (by decide) (by decide) (by decide) (by decide)
+      (by decide) (by decide) (by decide)
+    rw [e4] at this
+    exact this
+  have h5 : Ledger e s5 [100, 8, 3] := by
+    obtain ⟨C', c1, c2⟩ := walk_Ledger e s4 0 12 false [100, 9, 1] [100] h4 (by decide) (by decide) (by decide)
+      (by decide)
+    rw [e5] at c1 c2
+    rw [c2 rfl] at c1
+    exact c1
+  exact ⟨e1, e2, e3, e4, e5, h1, h3, h4, h5, by decide, by decide⟩
+
 end XV.C02
